@@ -249,7 +249,7 @@ def cases(rng, tier):
     q = tier != "thorough"
     # --- the reference encoder through the library's decoder: every salt
     for salt in range(53):
-        lens = LENS + [rng.randint(1, 127) for _ in range(3)] if q else list(range(1, 128)) + LENS
+        lens = LENS + [rng.randint(1, 127) for _ in range(6)] if q else list(range(1, 128)) + LENS
         for n in lens:
             yield mk("ref7", rand_pwd(rng, n), salt=salt)
     for _ in range(60 if q else 2000):
@@ -257,20 +257,20 @@ def cases(rng, tier):
     for _ in range(40 if q else 1000):
         yield mk("ref7", odd_pwd(rng), salt=rng.randint(0, 52))
     # --- the library's encoder with each of its 16 salts
-    for s in seeds_for("lib7", rng, 8 if q else 250):
+    for s in seeds_for("lib7", rng, 12 if q else 250):
         yield mk("lib7", rand_pwd(rng), seed=s)
-    for _ in range(60 if q else 1500):
+    for _ in range(100 if q else 1500):
         yield mk("lib7", rejected_pwd(rng) if rng.random() < 0.6 else odd_pwd(rng), seed=rng.randrange(1 << 30))
     # --- pwd_check
-    for _ in range(150 if q else 4000):
+    for _ in range(300 if q else 4000):
         yield mk("chk", rand_pwd(rng))
-    for _ in range(200 if q else 4000):
+    for _ in range(300 if q else 4000):
         yield mk("chk", rejected_pwd(rng) if rng.random() < 0.7 else odd_pwd(rng))
     # --- decoder on malformed type-7 strings
-    for _ in range(700 if q else 25000):
+    for _ in range(2000 if q else 25000):
         yield mk("dec7", ep=malformed7(rng))
     # --- hashes (bounded: each costs a KDF at generation, in the library and in the oracle)
-    for kind, n in (("h5", 60 if q else 1500), ("h8", 40 if q else 400), ("h9", 40 if q else 400)):
+    for kind, n in (("h5", 100 if q else 1500), ("h8", 60 if q else 400), ("h9", 60 if q else 400)):
         for i in range(n):
             r = rng.random()
             pwd = rand_pwd(rng) if r < 0.85 else (rejected_pwd(rng) if r < 0.93 else odd_pwd(rng))
